@@ -51,6 +51,17 @@ Allowed(kinds, locals, dev) ==
                      THEN {"short"} ELSE {})
   ELSE IF "trunc_eos" \in kinds THEN {"err", "full"} ELSE {"full"}
 
+\* Recorded executions know one more thing that can happen to a response: "flip", ONE byte of the
+\* payload changed.  Without a payload checksum a flipped value byte is not detectable by anyone, and a
+\* flipped padding byte changes nothing; so for a flip the contract only rules out what a decoder can
+\* rule out: an answer with other ROW COUNTS than the full one ("short"), and no answer at all.
+\* "garbled" = the full row count with other cell values.
+AllowedRec(kinds, locals, dev) ==
+  IF "flip" \in kinds
+  THEN IF MustErr(kinds \ {"flip"}, locals) THEN Allowed(kinds \ {"flip"}, locals, dev)
+       ELSE {"err", "full", "garbled"}
+  ELSE Allowed(kinds, locals, dev)
+
 \* named mutants of the coordinator (each must be rejected by the contract in some state)
 MutantNames == {"filter_ok", "retry_local", "http_empty", "ignore_decode", "skip_digest"}
 ====
